@@ -26,7 +26,7 @@ def jobs_for(tier: str) -> list[dict]:
         arity = 3 if physical == 1 else 4
         flat_lt = 1 if physical == 1 else 2
         kinds = C.kind_sequences(arity, C.RDF11_S, C.RDF11_P, C.RDF11_O, C.RDF11_G)
-        small = [s for s in C.repeat_masks(arity) + C.sharing_sequences(arity) if not s[0].startswith("deep")]
+        small = [s for s in C.repeat_masks(arity) + C.sharing_sequences(arity) if P.rdf11(s[1])]
         for name, stmts in kinds + small:
             for via in ("store", "generator"):
                 jobs.append(dict(integ="rdflib", physical=physical, name=name, stmts=stmts, preset=(8, 8, 8), delimited=True, frame_size=250, logical=flat_lt, via=via, parsers=parsers, generalized=False, rdf_star=False))
